@@ -107,46 +107,115 @@ def _hyp_settings(n, shrink):
                     phases=[Phase.generate, Phase.shrink] if shrink else [Phase.generate])
 
 
-class _Target(Exception):
-    pass
-
-
-def _run_given(mod, tier, S, n, col, target_sig=None, shrink_calls=1500):
-    """Pass 1 (target_sig None): run n generated cases, collect everything.
-    Pass 2: same seed, raise on target_sig so Hypothesis shrinks it; returns
-    the minimal failing case found."""
+def _run_given(mod, tier, S, n, col):
+    """Run n generated cases (seeded), collecting every result; never stops at
+    the first failure (collect-then-shrink)."""
     from hypothesis import given, seed
     strat = mod.strategy(tier)
-    state = {'best': None, 'best_size': None, 'calls_after': 0, 'res': None}
 
     def body(case):
-        if target_sig is None:
-            col.add(case, mod.run_case(case))
-            return
-        if state['best'] is not None:
-            state['calls_after'] += 1
-            if state['calls_after'] > shrink_calls and \
-                    json.dumps(case, sort_keys=True, default=repr) != state['best_key']:
-                return   # shrink budget used up: let Hypothesis finish with the best so far
-        res = mod.run_case(case)
-        if any(v['sig'] == target_sig for v in res.violations):
-            size = len(json.dumps(case, default=repr))
-            state['best'] = jsonable(case)
-            state['best_key'] = json.dumps(case, sort_keys=True, default=repr)
-            state['res'] = res
-            raise _Target()
+        col.add(case, mod.run_case(case))
 
-    test = seed(S)(_hyp_settings(n, target_sig is not None)(given(strat)(body)))
-    try:
-        test()
-    except _Target:
+    seed(S)(_hyp_settings(n, False)(given(strat)(body)))()
+
+
+def _candidates(x, path=()):
+    """Generic structural simplifications of a JSON value: (path, new value)."""
+    if isinstance(x, dict):
+        if x.get('mode') not in (None, 'none') and ('pre' in x or 'walk' in x or 'prio' in x):
+            yield path, {'mode': 'none'}
+        for k in x:
+            yield from _candidates(x[k], path + (k,))
+    elif isinstance(x, list):
+        n = len(x)
+        if n > 8:
+            yield path, x[:n // 2]
+            yield path, x[n // 2:]
+            if all(isinstance(e, int) for e in x) and any(x):
+                yield path, [0] * n
+                h = n // 2
+                yield path, [0] * h + x[h:]
+                yield path, x[:h] + [0] * (n - h)
+        if n <= 40:
+            for i in range(n - 1, -1, -1):
+                yield path, x[:i] + x[i + 1:]
+        for i in range(min(n, 60)):
+            yield from _candidates(x[i], path + (i,))
+    elif isinstance(x, bool):
+        if x:
+            yield path, False
+    elif isinstance(x, (int, float)):
+        if x not in (0, None):
+            yield path, 0
+            if isinstance(x, int) and x > 1:
+                yield path, x // 2
+                yield path, x - 1
+    elif x is not None and not isinstance(x, str):
         pass
-    except Exception as e:  # noqa
-        if target_sig is None:
-            raise
-        # Flaky / other Hypothesis complaints during shrinking: keep what we have
-        col.notes.setdefault('shrink_errors', []).append(repr(e)[:300])
-    return state['best'], state['res']
+
+
+def _complexity(x):
+    nums = []
+
+    def walk(v):
+        if isinstance(v, dict):
+            for e in v.values():
+                walk(e)
+        elif isinstance(v, list):
+            for e in v:
+                walk(e)
+        elif isinstance(v, (int, float)) and not isinstance(v, bool):
+            nums.append(abs(v))
+    walk(x)
+    return (len(json.dumps(x, default=repr)), sum(nums))
+
+
+def _set_path(case, path, val):
+    import copy
+    c = copy.deepcopy(case)
+    if not path:
+        return val
+    cur = c
+    for k in path[:-1]:
+        cur = cur[k]
+    cur[path[-1]] = val
+    return c
+
+
+def shrink(mod, case, sig, budget):
+    """Greedy structural shrinking that stays inside the generator's domain
+    (mod.valid) and keeps the violation signature.  Bypasses Hypothesis, so no
+    5-minute cap and fully deterministic."""
+    valid = getattr(mod, 'valid', None)
+    if valid is None:
+        return case, 0
+    used = 0
+    cur = case
+    improved = True
+    extra = getattr(mod, 'simplify', None)
+    while improved and used < budget:
+        improved = False
+        cands = list(_candidates(cur))
+        if extra is not None:
+            cands = [((), c) for c in extra(cur)] + cands
+        for path, val in cands:
+            if used >= budget:
+                break
+            try:
+                cand = _set_path(cur, path, val)
+                if cand is None or not valid(cand):
+                    continue
+                if _complexity(cand) >= _complexity(cur):
+                    continue
+                used += 1
+                res = mod.run_case(cand)
+            except Exception:  # noqa - an invalid candidate must not kill the run
+                continue
+            if any(v['sig'] == sig for v in res.violations):
+                cur = cand
+                improved = True
+                break
+    return cur, used
 
 
 def _run_machines(mod, tier, S, n, col):
@@ -188,19 +257,17 @@ def worker(args):
         todo = [b for b in col.buckets.values()
                 if not match_known(pid, b['sig'], known) and b.get('shrinkable', True)]
         todo.sort(key=lambda b: b['size'])
-        if hasattr(mod, 'strategy') and n:
-            for b in todo[:3]:
-                calls = 400 if tier == 'quick' else 3000
-                best, res = _run_given(mod, tier, S, n, col, target_sig=b['sig'],
-                                       shrink_calls=calls)
-                if best is not None:
-                    size = len(json.dumps(best))
-                    if size <= b['size']:
-                        b.update(case=best, size=size, shrunk=True,
-                                 observed=jsonable(res.summary))
-                        for v in res.violations:
-                            if v['sig'] == b['sig']:
-                                b['msg'] = v['msg']
+        for b in todo[:3]:
+            budget = 250 if tier == 'quick' else 2500
+            best, used = shrink(mod, b['case'], b['sig'], budget)
+            if best is not b['case']:
+                res = mod.run_case(best)
+                b.update(case=jsonable(best), size=len(json.dumps(best)), shrunk=True,
+                         observed=jsonable(res.summary))
+                for v in res.violations:
+                    if v['sig'] == b['sig']:
+                        b['msg'] = v['msg']
+            b['shrink_evals'] = used
     except BaseException as e:  # noqa
         col.errors.append(''.join(traceback.format_exception(type(e), e, e.__traceback__))[-4000:])
     out = col.dump()
